@@ -87,6 +87,15 @@ def enumerate_cases(tier):
     for b in ("lsf", "sge"):
         for files in ("fresh", "missing"):
             yield {"kind": "code", "backend": b, "where": "nowhere", "code": None, "acct": True, "files": files}
+    # two backends used in one project directory: each must only ever see its own jobs
+    for first, second in itertools.permutations(("slurm", "sge", "lsf"), 2):
+        for shadow in (True, False):
+            yield {"kind": "cross", "first": first, "second": second, "shadow": shadow}
+    # the accounting switch set the way a user sets it (gwf config set ... no)
+    for word in ("no", "false"):
+        for code in ("FAILED", "CANCELLED", "TIMEOUT"):
+            yield {"kind": "code", "backend": "slurm", "where": "acct", "code": code, "acct": False, "files": "fresh",
+                   "config_via": "cli", "word": word}
     yield {"kind": "many", "n": 2500 if tier == "thorough" else 1100, "acct": True}
     yield {"kind": "many", "n": 1030, "acct": False}
 
@@ -102,7 +111,11 @@ def run_code(case):
     if b == "slurm" and not case["acct"]:
         cfg["backend.slurm.accounting_enabled"] = False
     viols = []
-    with project.Project(ONE, backend=b, config=cfg) as proj:
+    with project.Project(ONE, backend=b, config=cfg if case.get("config_via") != "cli" else {}) as proj:
+        if case.get("config_via") == "cli":
+            rc_ = proj.gwf(["config", "set", "backend.slurm.accounting_enabled", case.get("word", "no")])
+            if rc_.code != 0:
+                raise hist.HarnessError("config set failed: " + rc_.brief())
         proj.set_files({"src": 1})
         r = proj.gwf(["run"])
         if r.code != 0:
@@ -167,6 +180,52 @@ def run_code(case):
             viols.append(Violation({"kind": "other-target-disturbed"}, f"U should be running, shows {table.get('U')}"))
     nt = case["code"] not in PLAIN
     return CaseResult(viols, nt, ["code", "backend-" + b, "where-" + where])
+
+
+RUNNING_CODE = {"slurm": "R", "sge": "r", "lsf": "RUN"}
+
+
+def run_cross(case):
+    """T is submitted through backend `first`; backend `second`, used in the same project, never submitted it."""
+    a, b = case["first"], case["second"]
+    viols = []
+    with project.Project(ONE, backend=a) as proj:
+        proj.set_files({"src": 1})
+        sim = proj.sim
+        r = proj.gwf(["-b", a, "run", "T"])
+        if r.code != 0 or r.crashed:
+            raise hist.HarnessError("setup run failed: " + r.brief())
+        ja = sim.latest("T")
+        hist.set_job_state(sim, ja, "submitted")
+        if case["shadow"]:
+            ja.shadow[b] = RUNNING_CODE[b]  # an unrelated job of the other scheduler happens to carry the same id
+        r1 = proj.gwf(["-b", b, "status", "T"])
+        t1 = r1.status_rows().get("T")
+        if r1.code != 0 or r1.crashed:
+            viols.append(Violation({"kind": "status-failed", "backend": b}, r1.brief()))
+        elif t1 != "shouldrun":
+            viols.append(Violation({"kind": "state-of-foreign-backend-job", "first": a, "second": b},
+                                   f"T was submitted through {a} only (job {ja.id}); `gwf -b {b} status` shows {t1!r}, "
+                                   f"expected the file-based 'shouldrun'"))
+        r2 = proj.gwf(["-b", b, "run", "T"])
+        jb = sim.latest("T")
+        if r2.code != 0 or r2.crashed or jb is ja:
+            viols.append(Violation({"kind": "second-backend-run", "first": a, "second": b},
+                                   f"`gwf -b {b} run T` did not submit T: " + r2.brief()))
+        else:
+            hist.set_job_state(sim, jb, "submitted")
+            hist.set_job_state(sim, ja, "running")
+            r3 = proj.gwf(["-b", a, "status", "T"])
+            t3 = r3.status_rows().get("T")
+            if t3 != "running":
+                viols.append(Violation({"kind": "tracked-id-overwritten-by-other-backend", "first": a, "second": b},
+                                       f"T's {a} job {ja.id} is running, but after a submission through {b} "
+                                       f"`gwf -b {a} status` shows {t3!r}"))
+            r4 = proj.gwf(["-b", b, "status", "T"])
+            if r4.status_rows().get("T") != "submitted":
+                viols.append(Violation({"kind": "second-backend-state", "first": a, "second": b},
+                                       f"`gwf -b {b} status` shows {r4.status_rows().get('T')!r} for its pending job {jb.id}"))
+    return CaseResult(viols, True, ["cross", f"{a}-then-{b}"])
 
 
 def run_many(case):
@@ -341,4 +400,4 @@ def run_hist(case):
 
 
 def run_case(case):
-    return {"code": run_code, "many": run_many, "hist": run_hist}[case["kind"]](case)
+    return {"code": run_code, "many": run_many, "hist": run_hist, "cross": run_cross}[case["kind"]](case)
